@@ -39,9 +39,15 @@ TEXTS = {"t1": "CREATE TABLE \"t1\" (a int, b varchar(3) DEFAULT 'x');\n",
          # the same with CRLF line ends (the file is read in text mode, the in-memory reference gets the decoded bytes)
          "t7": "CREATE TABLE c (x int); -- note one\r\nCREATE TABLE d (\r\n  y int, /* in */\r\n  z int\r\n);\r\n-- tail\r\n"}
 ENC = ["utf-8", "utf-16", "latin-1", "cp1251"]
-NAMES = ["a.sql", "b.c.sql", "noext", "UP.SQL", "with space.sql", ".hidden.sql", "d.ddl", "e.hql", "f.bql", "g.txt"]
+NAMES = ["a.sql", "b.c.sql", "noext", "UP.SQL", "with space.sql", ".hidden.sql", "d.ddl", "e.hql", "f.bql", "g.txt",
+         "b.v2.sql"]  # shares the text before its first dot with b.c.sql: two inputs, two dumps
 TSTATES = ["missing", "nested", "empty", "stale"]
 FLAGS = ["-t", "-o", "-v", "--no-dump"]
+
+
+def basename(name):
+    """'<input base name>': the file name without its (last) extension"""
+    return os.path.splitext(name)[0]
 
 
 def bounds(tier):
@@ -76,7 +82,7 @@ def gen_cases(tier):
         for n in range(0, 5):
             for f in itertools.combinations(FLAGS, n):
                 cases.append({"kind": "cli", "heavy": True, "mode": kind, "flags": list(f)})
-    for a, b in itertools.product(["a.sql", "b.c.sql", "a.ddl"], repeat=2):
+    for a, b in itertools.product(["a.sql", "b.c.sql", "a.ddl", "b.v2.sql"], repeat=2):
         for tk1, tk2 in (("t1", "t4"), ("t4", "t1")):
             cases.append({"kind": "seq", "names": [a, b], "texts": [tk1, tk2]})
     # every ordered pair (thorough: triple) of texts through parse_from_file in one process, with equal or different settings, and
@@ -127,7 +133,7 @@ def api_case(case):
         tgt = os.path.join(d, "out") if ts != "nested" else os.path.join(d, "out", "x", "y")
         if ts in ("empty", "stale"):
             os.makedirs(tgt)
-        base = name.split(".")[0]
+        base = basename(name)
         if ts == "stale":
             open(os.path.join(tgt, base + "_schema.json"), "w").write("STALE")
         exp = norm(DDLParser(text, **settings).run(**runkw))
@@ -201,11 +207,11 @@ def cli_case(case):
         dontcare = set()
         if kind == "file":
             p = cli([os.path.join(src, "b.c.sql")] + argv, work)
-            expect = {"b_schema.json"}
+            expect = {"b.c_schema.json"}
         elif kind == "dir":
             p = cli([src] + argv, work)
-            expect = {n.split(".")[0] + "_schema.json" for n in NAMES if n.rsplit(".", 1)[-1] in ("sql", "ddl", "hql", "bql") and "." in n and not n.startswith(".")}
-            dontcare = {"UP_schema.json", "_schema.json"}
+            expect = {basename(n) + "_schema.json" for n in NAMES if n.rsplit(".", 1)[-1] in ("sql", "ddl", "hql", "bql") and "." in n and not n.startswith(".")}
+            dontcare = {"UP_schema.json", "_schema.json", ".hidden_schema.json"}
         else:
             p = cli([os.path.join(src, "nosuch.sql")] + argv, work)
             expect = set()
@@ -226,7 +232,7 @@ def cli_case(case):
         if "--no-dump" in flags and os.path.isdir(tgt):
             D.append(diff("target directory with --no-dump", "written-without-dump", "not created", sorted(os.listdir(tgt))))
         for f in sorted(got & expect):
-            nm = [n for n in NAMES if n.split(".")[0] + "_schema.json" == f and n.rsplit(".", 1)[-1] in ("sql", "ddl", "hql", "bql")][0] if kind == "dir" else "b.c.sql"
+            nm = [n for n in NAMES if basename(n) + "_schema.json" == f and n.rsplit(".", 1)[-1] in ("sql", "ddl", "hql", "bql")][0] if kind == "dir" else "b.c.sql"
             exp = norm(DDLParser(open(os.path.join(src, nm)).read()).run(output_mode=mode))
             try:
                 content = json.loads(tree(tgt)[f])
@@ -278,7 +284,7 @@ def seq_case(case):
                 break
             if r != exp:
                 D.append(diff("invocation %d return value" % i, "differs-from-in-memory-api", short(exp, 200), short(r, 200)))
-            model[name.split(".")[0] + "_schema.json"] = exp_file
+            model[basename(name) + "_schema.json"] = exp_file
             files = tree(tgt)
             got = {}
             for f, b in files.items():
